@@ -10,6 +10,7 @@ import (
 	"sync"
 
 	"github.com/dadrus/heimdall/verifharness/app"
+	"github.com/dadrus/heimdall/verifharness/client"
 	"github.com/dadrus/heimdall/verifharness/rulebed"
 	"github.com/dadrus/heimdall/verifharness/trace"
 )
@@ -46,11 +47,17 @@ func rulesCmd(args []string) error {
 		p = rulebed.C03Profile
 	case "c06":
 		p = rulebed.C06Profile
+	case "c08":
 	default:
 		return fmt.Errorf("unknown profile %q", *profile)
 	}
 
-	scripts := rulebed.Generate(p, *n, *seed)
+	var scripts []rulebed.Script
+	if *profile == "c08" {
+		scripts = rulebed.GenerateC08(*n, *seed)
+	} else {
+		scripts = rulebed.Generate(p, *n, *seed)
+	}
 
 	if *only != "" {
 		want := map[string]bool{}
@@ -95,7 +102,12 @@ func rulesCmd(args []string) error {
 			defer wg.Done()
 			defer func() { <-sem }()
 
-			evs, err := runScript(sc)
+			mode := app.Decision
+			if sc.Mode != "" {
+				mode = sc.Mode
+			}
+
+			evs, err := runScript(sc, mode)
 
 			mu.Lock()
 			defer mu.Unlock()
@@ -129,14 +141,22 @@ func rulesCmd(args []string) error {
 	return first
 }
 
-func runScript(sc rulebed.Script) ([]rulebed.Event, error) {
-	bed, err := rulebed.Start(app.Decision, sc.Default, nil)
+func runScript(sc rulebed.Script, mode string) ([]rulebed.Event, error) {
+	var up *client.Upstream
+	if mode == app.Proxy {
+		up = client.NewUpstream()
+		defer up.Close()
+	}
+
+	bed, err := rulebed.Start(mode, sc.Default, up)
 	if err != nil {
 		return nil, err
 	}
 	defer bed.Stop()
 
-	evs := []rulebed.Event{{Ev: "reset", Trace: sc.Trace, Default: sc.Default, Rules: []rulebed.Rule{}, Caps: [][2]string{}}}
+	evs := []rulebed.Event{{
+		Ev: "reset", Trace: sc.Trace, Default: sc.Default, Rules: []rulebed.Rule{}, Caps: [][2]string{}, Mode: mode,
+	}}
 
 	for _, st := range sc.Steps {
 		res, msg := bed.Op(st.Kind, st.Src, st.Rules)
@@ -180,11 +200,18 @@ func replayRules(path, out string) error {
 		return err
 	}
 
-	var bed *rulebed.Bed
+	var (
+		bed *rulebed.Bed
+		up  *client.Upstream
+	)
 
 	defer func() {
 		if bed != nil {
 			bed.Stop()
+		}
+
+		if up != nil {
+			up.Close()
 		}
 	}()
 
@@ -203,7 +230,21 @@ func replayRules(path, out string) error {
 				bed.Stop()
 			}
 
-			if bed, err = rulebed.Start(app.Decision, ev.Default, nil); err != nil {
+			mode := ev.Mode
+			if mode == "" {
+				mode = app.Decision
+			}
+
+			if up != nil {
+				up.Close()
+				up = nil
+			}
+
+			if mode == app.Proxy {
+				up = client.NewUpstream()
+			}
+
+			if bed, err = rulebed.Start(mode, ev.Default, up); err != nil {
 				return err
 			}
 
